@@ -25,7 +25,9 @@ RULE = (
     "options given either as a jsonfile:// URI query or as keyword arguments next to a plain x.json / x.jsonl path; "
     "enumerated part: every cell field type x value class (none/empty/boundary/extreme/random/hostile: 10**40, NaN/inf, "
     "surrogate escapes, NUL, 70000-char text, empty lists) is forced into the first record of a sequence under rotating "
-    "configurations; the rest are random mixes.  Oracle: (a) the raw text splits into standalone documents with "
+    "configurations; plus the same-name family: 2-3 descriptors that share their NAME but not their field list (a field kept with another "
+    "type, disjoint fields, reordered, superset, prefix), interleaved in every order of length 2-4 (130 orders, the same for "
+    "every seed) under the read-back, the fallback and one indented configuration; the rest are random mixes.  Oracle: (a) the raw text splits into standalone documents with "
     "json.JSONDecoder.raw_decode, each accepted by a strict RFC 8259 parser (NaN/Infinity tokens refused, duplicate keys "
     "refused) - one document per line without indent, multi-line documents indented by the requested width with indent; "
     "(b) the record documents correspond 1:1, in order, to the records written, their keys are the record's fields in "
@@ -115,6 +117,63 @@ def build_sequence(seed, thorough, focus=None):
     return records
 
 
+def same_name_orders():
+    """Every interleaving of length 2..4 of 2 or 3 same-name descriptors that uses at least two of them."""
+    import itertools
+
+    return [(k, list(seq)) for k in (2, 3) for n in (2, 3, 4) for seq in itertools.product(range(k), repeat=n) if len(set(seq)) >= 2]
+
+
+def _other_type(rng, t):
+    for _ in range(50):
+        u = rng.choice(SUPPORTED)
+        if u != t:
+            return u
+    return "varint" if t != "varint" else "string"
+
+
+def build_same_name(seed, k, order):
+    """Records of `k` descriptors that share their NAME but differ in their field lists (so only the hash part of the
+    descriptor identifier tells them apart), interleaved as `order` says.  Variants: a field name kept with another
+    type, disjoint field names, the same fields in another order, a superset, a prefix."""
+    rng = random.Random(seed)
+    b = JBuilder(rng, thorough=False, max_depth=0)
+    name = gen.rand_typename(rng)
+    names = gen.unique_names(rng, 12)
+    n1 = rng.randint(1, 4)
+    base = [(rng.choice(SUPPORTED), names[i]) for i in range(n1)]
+    lists = [base]
+    spare = names[n1:]
+    modes = []
+    while len(lists) < k:
+        mode = rng.choice(["retype-one", "retype-all", "disjoint", "reorder", "superset", "prefix", "overlap-plus-disjoint"])
+        src = rng.choice(lists)
+        if mode == "retype-one":
+            j = rng.randrange(len(src))
+            new = [(_other_type(rng, t), n) if i == j else (t, n) for i, (t, n) in enumerate(src)]
+        elif mode == "retype-all":
+            new = [(_other_type(rng, t), n) for t, n in src]
+        elif mode == "disjoint":
+            m = rng.randint(1, 3)
+            new = [(rng.choice(SUPPORTED), spare.pop()) for _ in range(m)]
+        elif mode == "reorder":
+            new = list(reversed(src))
+        elif mode == "superset":
+            new = list(src) + [(rng.choice(SUPPORTED), spare.pop())]
+        elif mode == "prefix":
+            new = list(src[:-1])
+        else:
+            new = [(_other_type(rng, src[0][0]), src[0][1]), (rng.choice(SUPPORTED), spare.pop())]
+        if new in lists:
+            continue  # same field list = same descriptor: try another variant
+        lists.append(new)
+        modes.append(mode)
+    from flow.record import RecordDescriptor
+
+    descs = [RecordDescriptor(name, fl) for fl in lists]
+    return [b.record(descs[i]) for i in order], modes
+
+
 def cells():
     return [(t, vc) for t in SUPPORTED for vc in gen.classes_for(t)]
 
@@ -147,6 +206,16 @@ def generate(ctx):
                 yield {"k": "cell", "t": t, "vc": vc, "cfg": cfg, "via": ("uri", "path", "pathl")[(idx // 7 + rep) % 3],
                        "s": subseed("c14", ctx.seed, "cell", t, vc, rep)}
             idx += 1
+    # same-name family: every interleaving of 2..4 records of 2-3 descriptors that share a name but not a field list,
+    # under the read-back configuration, the fallback configuration and one indented configuration
+    idx = 0
+    for rep in range(ctx.scale(1, 6)):
+        for j, (k, order) in enumerate(same_name_orders()):
+            for cfg in (0, 3, (1, 2, 4, 5)[(j + rep) % 4]):
+                if ctx.mine(idx + 5):
+                    yield {"k": "same", "kk": k, "order": order, "cfg": cfg, "via": ("uri", "path", "pathl")[(j + rep) % 3],
+                           "s": subseed("c14", ctx.seed, "same", k, tuple(order), rep)}
+                idx += 1
     nmix = ctx.scale(150, 700)
     for i in range(nmix):
         yield {"k": "mix", "cfg": (i + ctx.shard) % len(CONFIGS), "via": ("uri", "path", "pathl")[i % 3],
@@ -343,7 +412,11 @@ def execute(ctx, case):
     focus = (case["t"], case["vc"]) if case["k"] == "cell" else None
     # JSON has no length classes (unlike msgpack): the 1 MiB strings / 65536-element lists of gen's thorough mode add
     # nothing here, so both tiers use the quick-size pools (70000-char strings, 3000-element lists); thorough = more cases
-    records = build_sequence(case["s"], thorough=False, focus=focus)
+    modes = None
+    if case["k"] == "same":
+        records, modes = build_same_name(case["s"], case["kk"], case["order"])
+    else:
+        records = build_sequence(case["s"], thorough=False, focus=focus)
     ctx.ev()
     cfgname = "desc=%s/indent=%s" % ("on" if descriptors else "off", indent)
     for r in records:
@@ -375,11 +448,16 @@ def execute(ctx, case):
     ctx.event("config:" + cfgname)
     ctx.event("via:" + case["via"])
     ctx.event("records_written", len(records))
+    if modes is not None:
+        ctx.event("same_name_sequences")
+        ctx.cell("same-name", "k=%d" % case["kk"], "len=%d" % len(case["order"]), cfgname)
+        for m in modes:
+            ctx.event("same_name_variant:" + m)
     if focus:
         ctx.cell(focus[0], focus[1])
         ctx.cell("cfg", cfgname, focus[0].endswith("[]") and "list" or "scalar")
     if records:
-        ctx.nontrivial(case["k"], case.get("t"), case.get("vc"), case["cfg"], case["via"], case["s"])
+        ctx.nontrivial(case["k"], case.get("t"), case.get("vc"), case.get("kk"), tuple(case.get("order", ())), case["cfg"], case["via"], case["s"])
     ctx.sample({"case": case, "config": cfgname, "opened": how, "first_lines": text[:300]}, kind=case["k"] + ":" + cfgname)
 
 
